@@ -14,7 +14,7 @@ here are its clauses whose truth is in the shape of the code and whose violation
   R-LOOKUP (C01) the leaf lookup returns the entry it examined under one permutation snapshot
   R-WUL    (C01) put / remove act on the entry (or absence) they re-looked-up under the lock: remove reports OK only
            for a found entry, a unique put reports WARN_UNIQUE_RESTRICTION only for a found entry
-  R-MAX    (C03) n/a here
+  R-IDX    (C19) a rank is never used as a slot number
 """
 from checks import C18, C01, keylen
 
@@ -32,3 +32,5 @@ def run(S):
     keylen.rule_narrow(S)
     C01.rule_lookup(S)
     C01.rule_wul(S)
+    from checks import C19
+    C19.rule_idx(S)
